@@ -91,6 +91,21 @@ CLAIMED["C11"]["note"] = "Bounds: generic instances with children one level deep
 CLAIMED["C15"]["text"] += " Gap lemma with arbitrary comment/line-break sequences (<= 2, 3 thorough) in every gap of blocks, switch/case clauses and if/else, and next to Bad nodes of symbolic extent; import spec with an empty path literal."
 CLAIMED["C20"]["text"] += " VerifC20Disk: the public SaveWithResolver on files that went through the real RestoreFile/DecorateFile pipeline (names recorded by DecorateNode, optional //line directive, unsorted import block), against an in-memory model of os.WriteFile/OpenFile/File.Write holding longer old contents: every path holds exactly gofmt's (go/format) print of its file, no other file exists."
 
+CLAIMED.update({
+ "C02": dict(
+  text="L1 (all 53 node types): a generic instance with a comment on every point and symbolic spacing/flags/tokens is restored from an arbitrary restorer state and from the same state translated by a symbolic delta with equal left-context freshness: the second ast, its new line starts and comments are the first's shifted by delta (solver obligation through a typed walk over all token.Pos fields) - a node renders identically wherever it is moved. L2 + edits (9 list kinds: statements, call arguments, composite-literal elements, value specs, import specs, struct fields, interface methods, file declarations, case clauses; 3 elements): chunks (0-1 comment lines directly above, trailing same-line comment, optional blank line before) are inserted into the real fragment list with gofmt-shaped symbolic indents; after the real link()/decorateNode each above-comment is in its own element's Start, each trailing comment in an End inside its own element's subtree, a blank line is Before/After of the two adjacent elements and nothing else; then the decorated list is permuted / an element deleted / moved / duplicated with Clone, restored by the real restoreNode, and every chunk comment is rendered once, next to its own element (above-lines directly above with exactly one line break, trailing comment on the element's line).",
+  note="'Equals gofmt of the edited source' is decided at the ast+line-table interface under contract PC. Bounds: 3 elements, <= 1 comment line above (2 in thorough), uniform separators, one edit per run; quick tier trims which elements carry which chunk parts.",
+  design="5/C02"),
+ "C09": dict(
+  text="Real go/types objects (constructors executed from SSA after running go/types' package init) populate Uses; the types-based resolver is run as the decorator runs it (resolvePath: resolver + stripVendor + local-path suppression). Selector situations: X is an identifier denoting a PkgName (any alias, path plain / vendored two ways), a var/field/func/type/const of either package, an identifier without Uses entry, or not an identifier; Sel with or without its own Uses entry -> path iff qualified identifier, vendor prefix removed. Plain identifiers: Uses absent / Var / field / Func / TypeName / Const / Label / universe object, owned by the local or the other package, in a call or a composite-literal key position -> path iff package-level object of the other package (dot-import). Declaring/name positions never resolved. stripVendor against its specification on paths assembled from symbolic filler bytes around 0-2 vendor elements. goast: error iff dot-import or two imports under one effective name (names/aliases symbolic), otherwise agreement with the types-based resolver on qualified selectors.",
+  note="What go/types records in Uses for each syntactic situation is contract T (the type checker is not executed). Shadowing of a package name by a local is represented only through 'X has a non-PkgName Uses entry' / goast's X.Obj check is not exercised with a non-nil Obj.",
+  design="5/C09"),
+ "C10": dict(
+  text="Composition on real code: file A (import of a path under its resolved name or a symbolic alias, one qualified reference) is decorated by the real DecorateFile with the syntax-based resolver; the declaration is moved into file B (0-1 import spec over three pool paths: none/alias/dot/blank with symbolic alias; one own reference with path empty/local/pool) and B is restored with import management (symbolic package names, so conflicts occur): moved and own references are bound, by B's restored import specs under contract T, to their original path and name, unambiguously; bare only under a dot-import; then the restored B is decorated again and the moved reference gets the same path and name (repeated moves compose), a dot-import making the syntax-based resolver return an error instead.",
+  note="'Type-checks whenever the original did' is judged through name binding under contract T only; shadowing by declarations in B is excluded by the statement. One move, one moved reference.",
+  design="5/C10"),
+})
+
 NOT_YET = "check not built yet in this round (work in progress; see DESIGN.md section 7 for the order)"
 
 def main():
@@ -127,10 +142,6 @@ def main():
     }
     json.dump(m, open('/verif/MANIFEST.json', 'w'), indent=1)
 
-NA = {
- "C02": "not built yet: needs the gap lemma with gofmt-shaped indents per list kind plus the translation-invariance lemma L1 (DESIGN.md section 5/C02); partial support exists through C01 (attachment is gap-local), C05 (spacing rule per node type) and C06 (Clone)",
- "C09": "not built yet: the gotypes resolver needs go/types objects (types.Info.Uses) constructed inside the symbolic executor; stripVendor/goast parts are encodable and planned",
- "C10": "not built yet: composition of decorate-with-resolver in file A and import-managed restore in file B; depends on C07 (done) and C09",
-}
+NA = {}
 if __name__ == '__main__':
     main()
